@@ -11,8 +11,11 @@ every run and SLICED by a statement-level slicer (below) to a C unit over an abs
 
     struct TV { int n; bool sdef /* size set in this call */; bool edef /* element gj written in this call */; }
 
-(ghost element index gj, ghost matrix element (gr,gc); specs/C44plus/plus_model.h), function contracts and loop contracts live in
-specs/C44plus/plus_contracts.h and are discharged with goto-instrument --dfcc --apply-loop-contracts + cbmc.
+(ghost element index gj, ghost matrix element (gr,gc); specs/C44plus/plus_model.h).  Function contracts and loop invariants live in
+specs/C44plus/plus_contracts.h.  The seven helpers and solveBilateral() are discharged with goto-instrument --dfcc
+--apply-loop-contracts + cbmc (contract ENFORCED on the sliced body).  solve() itself is a plain cbmc unit (dfcc on it costs
+minutes): the slicer emits its 14 loops in base/havoc/step form with a havoc set COMPUTED from the sliced loop body, and its helper
+calls as contract models CALL_x (assert PRE_x; havoc frame; assume POST_x) that share PRE_x/POST_x with the enforced contracts.
 
 SLICER (closed rule list, every decision is logged per function in extraction_report.json):
  K1 statement tree: { } / if-else / for / while / break / continue / return / simple statements.  do-while, switch, goto,
@@ -34,7 +37,14 @@ SLICER (closed rule list, every decision is logged per function in extraction_re
  K5 all other statements (the numerics on local Vectors/Matrices/Reals, RT-array bookkeeping) are DROPPED and listed.
     if/else and loops that keep nothing and contain no return are dropped as a whole.  `return x;` -> `return;`.
     SimTK_ASSERTn_ALWAYS(...) (throws) -> reads of its arguments + `if (nondet) return;`.
- K6 loops keep their real header when pure; each kept loop gets the loop contract LOOPC_<function>_<ordinal> from the spec.
+ K6 loops keep their real header when pure; each kept loop gets the loop contract LOOPC_<function>_<ordinal> from the spec
+    (dfcc units) resp. is emitted as  { INIT; assert INV; havoc(counter + every model field written by the sliced body or, through
+    CALLEE_WRITES, by a callee); assume INV; if (COND) { BODY; cont: INCR; assert INV; assume false } exit: }  with
+    break/continue -> goto exit/cont (plain unit solve).  The number of kept loops per function is pinned: a changed loop
+    structure aborts the extraction (the invariants are attached by ordinal).
+ K7 every other PLUSImpulseSolver member function defined in the file (calcSlidingStepLength*) is cut and checked to mention no
+    tracked member, so that dropping calls of it (K5) drops no member access; `this->` prefixes are removed, any other use of
+    `this` and any reference/pointer bound to a whole tracked container aborts.
 
 run(ctx) adds units `plus.*` and returns a replayer."""
 import os, re, time, json
